@@ -101,9 +101,9 @@ var pkgNames = []string{"a", "a.b.c", "my_pkg.v1", "Zed"}
 var msgNames = []string{"Req", "Resp", "item_info", "Item_Info", "FOO", "x"}
 
 type methodSpec struct {
-	Name       string
-	CS, SS     bool
-	In, Out    string
+	Name    string
+	CS, SS  bool
+	In, Out string
 }
 
 type svcSpec struct {
@@ -167,6 +167,11 @@ func genSpec(r *payload.SplitMix, idx int) fileSpec {
 			// two services whose names differ only in case/underscores map to one Go name: excluded as unrealistic
 			if norm(o.Name) == norm(sv.Name) {
 				dup = true
+			}
+		}
+		for _, m := range f.Msgs {
+			if m == sv.Name {
+				dup = true // a service and a message cannot share a proto name
 			}
 		}
 		if dup {
